@@ -13,24 +13,27 @@ def insertSorted (a : Nat) : List Nat → List Nat
 
 def toSet (l : List Nat) : List Nat := l.foldl (fun acc a => insertSorted a acc) []
 
+/-- one step of `remove_duplicate_surfaces`: state = (definitions seen ↦ kept id, kept ids, renumbering) -/
+def dedupStep (acc : List (String × Nat) × List Nat × List (Nat × Nat)) (p : Nat × String) :
+    List (String × Nat) × List Nat × List (Nat × Nat) :=
+  match acc.1.find? (·.1 == p.2) with
+  | some (_, k) => (acc.1, acc.2.1, acc.2.2 ++ [(p.1, k)])
+  | none => (acc.1 ++ [(p.2, p.1)], acc.2.1 ++ [p.1], acc.2.2 ++ [(p.1, p.1)])
+
 /-- `remove_duplicate_surfaces` on (id, definition-key) pairs: ids are visited in increasing order
 and the first surface with a given definition wins.  Returns the kept ids and the renumbering. -/
 def removeDuplicates (surfs : List (Nat × String)) : List Nat × List (Nat × Nat) :=
-  let sorted := surfs.mergeSort (fun a b => a.1 ≤ b.1)
-  let step (acc : List (String × Nat) × List Nat × List (Nat × Nat)) (p : Nat × String) :=
-    let (seen, kept, ren) := acc
-    match seen.find? (·.1 == p.2) with
-    | some (_, k) => (seen, kept, ren ++ [(p.1, k)])
-    | none => (seen ++ [(p.2, p.1)], kept ++ [p.1], ren ++ [(p.1, p.1)])
-  let (_, kept, ren) := sorted.foldl step ([], [], [])
-  (kept, ren)
+  let r := (surfs.mergeSort (fun a b => a.1 ≤ b.1)).foldl dedupStep ([], [], [])
+  (r.2.1, r.2.2)
 
 def renumOf (ren : List (Nat × Nat)) (s : Nat) : Nat := ((ren.find? (·.1 == s)).map (·.2)).getD s
 
 /-- `renumber_surfaces` -/
+def renumVol (ren : List (Nat × Nat)) (v : Vol) : Vol :=
+  { v with pluses := toSet (v.pluses.map (renumOf ren)), minuses := toSet (v.minuses.map (renumOf ren)) }
+
 def renumberVols (ren : List (Nat × Nat)) (vols : List (Nat × Vol)) : List (Nat × Vol) :=
-  vols.map fun (k, v) => (k, { v with pluses := toSet (v.pluses.map (renumOf ren)),
-                                      minuses := toSet (v.minuses.map (renumOf ren)) })
+  vols.map fun p => (p.1, renumVol ren p.2)
 
 def Vol.empty (v : Vol) : Bool := v.pluses.any (v.minuses.contains ·)
 
